@@ -110,6 +110,9 @@ func setKind(c *Case, kind string, src *gen.Source) {
 		if src.Chance(1, 3) {
 			c.Reader.Unread = "multi"
 		}
+		if src.Chance(1, 4) {
+			c.Reader.EOFStale = true
+		}
 	}
 }
 
